@@ -401,6 +401,7 @@ func init() {
 		if !r.MergeJobs(res) {
 			r.Exhaustive = false
 		}
+		defer overlapPart(r, []string{"bearer-jti", "client-assertion-jti"})
 		r.Bounds = map[string]any{"uses": []string{"private_key_jwt client assertion", "JWT-bearer grant"}, "header_alg": c15Algs, "kid": c15Kids, "signing_key": c15Keys, "claim_deviations": c15Claims,
 			"optional_claim_configs": "jti optional x iat optional (bearer)", "scopes_vs_key_scopes": []string{"a", "photos", "a photos", "none", "a.b"}, "replay_positions": []string{"immediately", "after other requests + 20 s", "after expiry"},
 			"schedules": fmt.Sprintf("2 simultaneous presentations: all interleavings at storage-call granularity (unbounded) and lock granularity (preemption bound 2); 3 simultaneous: storage-call granularity, preemption bound %d", bound3)}
